@@ -207,6 +207,11 @@ class ChangeScenario(Scenario):
                 if isinstance(h.get(k), str):
                     h[k] = getattr(kopf.ErrorsMode, h[k])
             deco(self.kind.plural, id=hid, registry=reg, **h)(fn)
+        # handlers of ANOTHER kind served by the same operator (never triggered here: only their declarations are in the registry)
+        for h in self.params.get('other_kind_handlers', []):
+            h = dict(h)
+            hid, on = h.pop('id'), h.pop('on')
+            getattr(kopf.on, on)('kopfwidgets', id=hid, registry=reg, **h)(scripted(env, hid, parse_script(['ok'])))
         return reg
 
     def _with_subs(self, env: Env, hid: str, fn: Any, subs: list[dict]) -> Any:
